@@ -323,7 +323,21 @@ def oracle_c01(doc):
             break
     if pairs and not any(e.is_valid for e, _ in pairs) and any(v.is_valid(s) for _, s in pairs):
         ok = next(s for _, s in pairs if v.is_valid(s))
-        res.append(("no-valid-sample", "no sample is labelled valid although the schema is satisfiable (the generated %s is accepted)" % json.dumps(ok), ok))
+        sig = "no-valid-sample"
+        if isinstance(doc, dict) and '"$ref"' in json.dumps(doc):
+            # classification for the known-findings file: recursion that cannot bottom out because arrays are only
+            # generated at their full declared length (see C11)
+            import c11
+            for name, variant in (("recursion-through-array-items-generated-non-empty", c11.with_empty_arrays(doc)),
+                                  ("recursion-through-prefix-items-generated-in-full", c11.with_empty_arrays(c11.without_prefix_items(doc)))):
+                try:
+                    g2, pairs2, err2 = generate(variant)
+                except Exception:  # noqa
+                    continue
+                if g2 is not None and not err2 and any(e.is_valid for e, _ in pairs2):
+                    sig += ":" + name
+                    break
+        res.append((sig, "no sample is labelled valid although the schema is satisfiable (the generated %s is accepted)" % json.dumps(ok), ok))
     return res
 
 
@@ -470,14 +484,23 @@ def run(pid, tier):
                 nf = None
             if nf is not None:
                 lines.append(" ".join(["J"] + VAR + [str(FUEL), "1"] + J.enc_json(nf)))
-                meta.append((nf, True))
+                meta.append((nf, True, id(d)))
             if rng.random() < 0.35:
                 lines.append(" ".join(["J"] + VAR + [str(FUEL), "0"] + J.enc_json(d)))
-                meta.append((d, False))
+                meta.append((d, False, id(d)))
         model = run_driver(lines)
-        for (d, normalized), m in zip(meta, model):
+        parse_agrees = {}
+        for (d, normalized, key), m in zip(meta, model):
             impl = observe(d, normalized)
             ck.cov["traces_validated_against_impl"] += 1
+            if normalized:
+                parse_agrees[key] = impl == m
+            if impl != m and not normalized and parse_agrees.get(key):
+                # end to end the model and the code differ although parse() agrees on the implementation's own normal
+                # form: the difference lies in normalize() (in-place list growth on shared sub-schemas, not modelled;
+                # judged semantically by the N stream of C06 / C16), not in what this property is about
+                hist["normal_forms_differ_structurally"] = hist.get("normal_forms_differ_structurally", 0) + 1
+                continue
             if impl != m:
                 ck.cov["disagreements_checked"] += 1
                 suspects.append(d)
@@ -517,7 +540,8 @@ def run(pid, tier):
                 got = [x for x in ORACLES[pid](small) if x[0] == sig]
                 if got:
                     what = got[0][1]
-            ck.violation(sig if pid == "C12" else sig + ":" + classify(small), what, {"stream": "J", "schema": small})
+            full_sig = sig if (pid == "C12" or "recursion-through" in sig) else sig + ":" + classify(small)
+            ck.violation(full_sig, what, {"stream": "J", "schema": small})
     ck.sample({"schema": docs[0]})
     ck.sample({"schema": docs[5]})
     ck.cov["rule"] = ("random documents of the C01/C02 dialect (type names and lists incl. integer, enum/const alone, one lower/upper bound, multipleOf, lengths, "
